@@ -1,3 +1,4 @@
+import BycycleModel.Routing
 import Proofs.Shape
 import Proofs.ShapeGen
 /-!
@@ -64,5 +65,9 @@ example : shapeFeatures .trough ([0, -1, 0, 2, 1, -2, 0, 3, 1, -1].map (- ·)) [
     .ok ([⟨3, 0, 4, 2, 1, 5⟩, ⟨7, 4, 8, 6, 5, 9⟩].map fun r =>
       shapeSpecTrough [0, -1, 0, 2, 1, -2, 0, 3, 1, -1] [1, 2, 3, 4, 5, 6, 7, 8, 9, 10] (Slots.renameSamples r)) := by
   decide +kernel
+
+/-- the wiring of the shape stage read off the source: every feature function gets the cyclepoint table and the signal of THIS call, the symmetry features
+`compute_durations`' (period, time_peak, time_trough) in this order, the band amplitude the rate, band and filter length. -/
+theorem C04_routing : ∀ r ∈ Routing.shape, Routing.holds Slots.routes r = true := by decide +kernel
 
 end Bycycle
